@@ -106,3 +106,31 @@ def m_sort(ex, st, lv, recv, args, e):
 
 
 N.METHODS_MUT['sort'] = m_sort
+
+
+# ---------------------------------------------------------------- len(set)
+_card = {}
+
+
+def len_set(ex, st, v, e):
+    """len(s) for a set: only emptiness is characterised (card == 0 iff no element; card > 0 gives a witness)"""
+    from .types import _name
+    if v.t is None:
+        return vint(0)
+    k = _name(v.ty)
+    if k not in _card:
+        _card[k] = (z3.Function('set_card_' + k, sort_of(v.ty), I),
+                    z3.Function('set_some_' + k, sort_of(v.ty), sort_of(v.ty.k)))
+    card, some = _card[k]
+    x = z3.Const('x!card', sort_of(v.ty.k))
+    # the set may be a lambda term (intersection, set(list)): name it, membership is defined pointwise
+    s_ = fresh(v.ty, 'set')
+    st.assume(z3.ForAll([x], z3.Select(s_.t, x) == z3.simplify(z3.Select(v.t, x)), patterns=[z3.Select(s_.t, x)]))
+    st.assume(card(s_.t) >= 0)
+    st.assume(z3.Implies(card(s_.t) > 0, z3.Select(s_.t, some(s_.t))))
+    st.assume(z3.ForAll([x], z3.Implies(z3.Select(s_.t, x), card(s_.t) > 0), patterns=[z3.Select(s_.t, x)]))
+    ex.notes.append('len(set): only emptiness is characterised (assumed builtin)')
+    return V(INT, card(s_.t))
+
+
+N.LEN['SetT'] = len_set
